@@ -286,7 +286,7 @@ func init() {
 		Setup:       validateOracle,
 		Timeout:     minutes(15, 120),
 		Cases: func(tier string, seed int64) []fw.Case {
-			return mkCases(nil, "sessions", 64, seed, pick(tier, 4, 150))
+			return mkCases(nil, "sessions", 64, seed, pick(tier, 4, 80))
 		},
 		Floors: func(string) map[string]int64 {
 			return map[string]int64{"sessions": 150, "gos": 800, "pos_mate": 5, "pos_stalemate": 5, "pos_claimable-threefold": 5, "pos_clock>=100": 5, "pos_single-legal-move": 3, "pos_continuation": 50, "stale_timer_scenarios": 20, "null_moves_expected": 5}
